@@ -225,7 +225,21 @@ func (w *c08World) jsonBody(c *c08Case, rng *rand.Rand) string {
 		method = ""
 	case "unknown":
 		method = `,"method":"getNope"`
+	case "unknown:long":
+		method = `,"method":"` + strings.Repeat("getNope", 40) + `"`
+	case "unknown:nonascii":
+		method = `,"method":"getÑope☃"`
+	case "unknown:control":
+		method = `,"method":"get\u0000\u001f\u007fNope"`
 	default:
+		if strings.HasPrefix(c.Method, "unknown:mb") {
+			// a rune of the given width starting at the given byte offset of the name
+			var wdt, at int
+			fmt.Sscanf(c.Method, "unknown:mb%d@%d", &wdt, &at)
+			r := map[int]string{2: "é", 3: "☃", 4: "😀"}[wdt]
+			method = `,"method":"` + strings.Repeat("a", at) + r + `tail"`
+			break
+		}
 		method = `,"method":"` + c.Method + `"`
 	}
 	var id string
@@ -312,6 +326,10 @@ func (w *c08World) doGrpc(c *c08Case, multi *MultiEpoch) (outcome, detail string
 	case "before-start":
 		e := slot
 		slot += 10 // end < start
+		end = &e
+	case "epochs-before-start":
+		e := slot
+		slot += 3 * 432000 // end < start, several epochs apart
 		end = &e
 	case "huge":
 		e := slot + 5000
